@@ -525,7 +525,46 @@ func profileValidityScenarios(yield func(any)) {
 	}
 }
 
+// storedKeyScenarios: for every key algorithm a directory whose artifact holds only a private key of that algorithm (written by
+// gopki in an earlier run); the run must issue the certificate for exactly that key: same algorithm, same named curve, that public key
+func storedKeyScenarios(yield func(any)) {
+	names := keyAlgNamesFast
+	if thorough() {
+		names = keyAlgNamesAll[:len(keyAlgNamesFast)+1]
+	}
+	for _, name := range names {
+		cfg := tinyCfg("Stored "+name, "", "")
+		cfg["keyAlgorithm"] = name
+		if isRsaName(name) {
+			cfg["signatureAlgorithm"] = "RSAwithSHA256"
+		}
+		j := must(json.Marshal(cfg))
+		m := buildMapFs([]FileIn{{Path: "e.yaml", Kind: "cert", Json: j, Text: string(j), Age: 10}}, nowMinusHour())
+		runSign(m, defaultStrat, nil)
+		f, ok := m["e.pem"]
+		if !ok {
+			continue
+		}
+		keyOnly := string(stripBlock(f.Data, "cert"))
+		noHash := string(stripBlock([]byte(keyOnly), "hash"))
+		for _, text := range []string{keyOnly, noHash} {
+			for _, strat := range []int{defaultStrat, 31} {
+				// the configuration may meanwhile name another algorithm: the stored key still decides
+				for _, other := range []string{name, "P-256"} {
+					c2 := cloneJ(cfg)
+					c2["keyAlgorithm"] = other
+					if isRsaName(name) != isRsaName(other) {
+						continue
+					}
+					yield(PkiIn{Tz: 0, Strat: strat, Files: []FileIn{certFile("e.yaml", c2, true), {Path: "e.pem", Kind: "pem", Text: text, Age: 100}}})
+				}
+			}
+		}
+	}
+}
+
 func genPki(yield func(any)) {
+	storedKeyScenarios(yield)
 	manipScenarios(yield)
 	profileValidityScenarios(yield)
 	tzs := []int{0, 3600, -5 * 3600, 14 * 3600, -12 * 3600, 19800}
